@@ -19,6 +19,12 @@ public:
     explicit Agc(real_t target_level = 1, real_t max_gain = 60.0, int average_len = 100, real_t t_rise = 0.01,
                  real_t t_fall = 0.01);
 
+    //a copy owns its own state (gain, averaging window)
+    Agc(const Agc& rhs);
+    Agc& operator=(const Agc& rhs);
+    Agc(Agc&&) noexcept = default;
+    Agc& operator=(Agc&&) noexcept = default;
+
     template<typename T>
     struct Result
     {
